@@ -88,6 +88,21 @@ CLAIMED.update({
                 technique='Coq proof (case analysis of the chain) + regenerated finite tables + per-order correspondence', design='DESIGN.md §5 C16'),
 })
 
+CLAIMED.update({
+    'C19': dict(text='Mod lifecycle model (Model/ModLife.v): for every list of configured mods (enabled or not, any priorities, failing imports / start-ups) the started '
+                     'list is the enabled ones by priority then configuration order, tear-down visits exactly the started mods in reverse order once each, a failing '
+                     'tear-down does not stop the others, results are collected only from non-empty returns (induction over the mod list); probe mods record the '
+                     'order of start_up / tear_down / injected API calls in real runs (successful, failing in init, failing mid-run) and every run is replayed '
+                     'through the model inside coqc.',
+                technique='Coq proof (induction over mod lists, sorting lemmas) + whole-run correspondence with probe mods', design='DESIGN.md §5 C19'),
+    'C18': dict(text='Analyser model (Model/Analyser.v): one record per settled day in order, total return = final net value - 1 = compounded daily returns - 1 '
+                     '(telescoping product for every positive series), benchmark return = ratio of closes (telescoping), failed run => no result (through the mod '
+                     'lifecycle model); partial: round(x, n), pandas and the real power in the annualised return are runtime - the annualised return, the trade '
+                     'table and the account tables are compared by the harness only; every reported record of real runs (benchmark none / index / stock with '
+                     'adjusted closes, one-day ranges, failing runs incl. failures after the last record) is replayed through the model inside coqc.',
+                technique='Coq proof (telescoping products by induction) + per-record correspondence with the returned report', design='DESIGN.md §5 C18'),
+})
+
 ALL = ['C%02d' % i for i in range(1, 21)]
 
 
